@@ -21,3 +21,10 @@ Definition nh_xtcp_registration_as_modelled (close run loop : list string) : boo
   match loop with [] => true | _ => false end.
 Definition nh_today_xtcp_registration_sync : bool :=
   nh_xtcp_registration_as_modelled nh_xtcp_close nh_xtcp_run nh_xtcp_loop_calls.
+
+(* pkg/transport/message.go, transporterImpl.Send as modelled by Model/NatHoleTr.v: the message is sent on sendCh by a
+   plain (blocking) send or in a select whose only other case waits for doneCh -- no default clause, no other way out *)
+Definition nh_tr_send_as_modelled (cases : list string) : bool :=
+  (nh_str_in "send:sendCh" cases || nh_str_in "plain-send:sendCh" cases) &&
+  forallb (fun c => String.eqb c "send:sendCh" || String.eqb c "plain-send:sendCh" || String.eqb c "recv:doneCh") cases.
+Definition nh_today_tr_send_blocking : bool := nh_tr_send_as_modelled nh_tr_send.
